@@ -205,7 +205,7 @@ func (e *Engine) frameTargets(a *act, fs *FuncSpec, entryEnv *specEnv) *frameInf
 		x := cl.E
 		if x.Op == "ident" && x.Name == "ghosts" {
 			for name, sf := range e.specFuncs {
-				if sf.Ghost {
+				if sf.Ghost && sf.Pkg == "" {
 					fr.wild["G_"+name] = true
 				}
 			}
